@@ -193,7 +193,9 @@ class LazyModel(histmc.HistModel):
         cm = sys.modules.get("periodictable.cromermann")
         put("cm-cache", bool(getattr(cm, "_cmformulas", None)) if cm else None)
         fm = sys.modules.get("periodictable.formulas")
-        put("parser-cache", len(getattr(fm, "_PARSER_CACHE", {})) if fm else None)
+        cache = getattr(fm, "_PARSER_CACHE", {}) if fm else None
+        names = dict((id(T), n) for n, T in core.PRIVATE_TABLES.items())
+        put("parser-cache", sorted(names.get(id(T), "?") for T in cache) if cache is not None else None)
         return h.hexdigest()[:20]
 
     # ---- full digest of everything the public table serves
@@ -244,6 +246,7 @@ def digest_table(pt, T, order, groups=None):
             out.append(rd(lambda: el.xray.scattering_factors(energy=8.0)))
             out.append(rd(lambda: el.xray.f0(1.5)))
             out.append(rd(lambda: el.xray.sld(energy=8.0)))
+            out.append(rd(lambda: sorted(k for k in vars(el.xray) if k not in ("element", "_table"))))
         out.append(rd(lambda: T.Fe.ion[2].xray.f0(1.0)))
         out.append(rd(lambda: T.Fe[56].ion[2].xray.f0(1.0)))
         if T is pt.elements:
